@@ -25,7 +25,7 @@ def registry():
     for pid, ent in reg.items():
         # "the state the code keeps is the state the Model has": Props/<ID>State.lean over Generated/Footprint.lean
         ent["lean"] = list(ent["lean"]) + [f"TinyFlux.Props.{pid}State"]
-        ent["gen"] = tuple(ent.get("gen", ())) + ("Footprint",)
+        ent["gen"] = tuple(ent.get("gen", ())) + ("Footprint", "CallGraph")
     return reg
 
 
